@@ -19,6 +19,7 @@ let () =
     | "rword" -> C15.rword_line, None
     | "pexp" -> C15.pexp_line, None
     | "rword2" -> C15.rword2_line, None
+    | "rword3" -> C15.rword3_line, None
     | "hdoc" -> C15.hdoc_line, None
     | "gap" -> Gap.model_line, None
     | "hdp" -> Hdp.model_line, Some Hdp.judge_line
